@@ -35,6 +35,7 @@ class _Cur:
     description = None
     rowcount = -1
     arraysize = 1
+    lastrowid = 1
 
     def __init__(self, log):
         self.log = log
